@@ -36,7 +36,7 @@ def fd_gradient(L, x0_used, free_names, free_x0, h=1e-6):
     return g
 
 
-def grad_unit(kind, sel, tp, n, weighted=False, spread_form="scalar", entry="sensitivity", ts_sel=None, full_output=False, time_kind="sym"):
+def grad_unit(kind, sel, tp, n, weighted=False, spread_form="scalar", entry="sensitivity", ts_sel=None, full_output=False, time_kind="sym", y_kind="sym"):
     iv = entry == "sensitivityIV"
 
     def h(c):
@@ -44,7 +44,7 @@ def grad_unit(kind, sel, tp, n, weighted=False, spread_form="scalar", entry="sen
         free_x0 = (list(ts_sel) if ts_sel is not None else list(STATES)) if iv else []
         if c.mode == "sym":
             with stubs.integrator_stubs(c, eig="fixed") as book, stubs.patched(*loss_patches(c)):
-                L = build_loss(c, kind, sel, tp, ts_sel, n, weighted, spread_form, time_kind)
+                L = build_loss(c, kind, sel, tp, ts_sel, n, weighted, spread_form, time_kind, y_kind)
                 x0_used = list(L.x0)
                 if iv:
                     L.x0_free = [c.real("iv_%s" % s, lo=1, hi=10) for s in free_x0]
@@ -83,7 +83,7 @@ def grad_unit(kind, sel, tp, n, weighted=False, spread_form="scalar", entry="sen
                         acc = acc + expr.ev(expr.d(e, "yh"), env) * rows[i][NS + NS * NP + l * NS + s]
                 ref.append(acc)
         else:
-            L = build_loss(c, kind, sel, tp, ts_sel, n, weighted, spread_form, time_kind)
+            L = build_loss(c, kind, sel, tp, ts_sel, n, weighted, spread_form, time_kind, y_kind)
             x0_used = [float(v) for v in L.x0]
             if iv:
                 L.x0_free = [c.real("iv_%s" % s, lo=1, hi=10) for s in free_x0]
@@ -104,7 +104,7 @@ def grad_unit(kind, sel, tp, n, weighted=False, spread_form="scalar", entry="sen
                 c.prove(near(g[k_], ref[k_], c, tol=2e-4), "gradient[%d] == d cost / d %s (free variables in the order supplied)" % (k_, nm))
     return Unit("C07.%s[%s,states=%s,target=%s,n=%d,w=%s,spread=%s,ts=%s,full=%s%s]" % (
         entry, kind, "+".join(sel), "all" if tp is None else "+".join(tp), n, weighted, spread_form, ts_sel, full_output,
-        "" if time_kind == "sym" else ",times=" + time_kind), h,
+        ("" if time_kind == "sym" else ",times=" + time_kind) + ("" if y_kind == "sym" else ",y=" + y_kind)), h,
         bounds={"model": "S,J,R / beta,gamma", "times": n, "time_inputs": "symbolic reals" if time_kind == "sym" else "concrete %s 1..n with t0=0.5" % time_kind, "observed_states": list(sel), "target_param": tp, "target_state": ts_sel,
                 "weights": "symbolic" if weighted else "unit", "spread": spread_form},
         program={"loss": kind, "sel": list(sel), "tp": tp, "ts": ts_sel}, tol=2e-4, max_paths=400)
@@ -155,6 +155,9 @@ class C07(Check):
         us.append(grad_unit("Square", ("J", "S"), None, 2, time_kind="int_array"))
         us.append(grad_unit("Square", ("S",), ("gamma",), 2, entry="sensitivityIV", ts_sel=("R",), time_kind="int_list"))
         us.append(grad_unit("Normal", ("R",), None, 3, entry="sensitivity", full_output=True, time_kind="int_array"))
+        # typed observations (int64 arrays)
+        for kind, sf in (("Square", "scalar"), ("Poisson", "scalar"), ("NegBinom", "per_state"), ("Gamma", "scalar"), ("Normal", "full")):
+            us.append(grad_unit(kind, ("R", "J"), ("gamma", "beta"), 2, spread_form=sf, y_kind="int64"))
         # every accepted weight form (per-state vector, single scalar), n != p
         us.append(grad_unit("Square", ("R", "J"), None, 3, weighted="per_state"))
         us.append(grad_unit("Normal", ("J", "S"), ("gamma", "beta"), 3, weighted="per_state", spread_form="per_state"))
